@@ -157,4 +157,30 @@ def PlainName (cls : Str) : Prop :=
 def PlainInv (r : Inv) : Prop :=
   ∀ loc c cn, readClass r loc c = .ok (some cn) → ∀ cls ∈ cn.classes.items, PlainName cls
 
+/-! ## Vocabulary for the termination bound -/
+
+/-- Number of names of the universe `U` that are not yet in `seen`. -/
+def unseen (U seen : List Str) : Nat := (U.filter fun u => decide (u ∉ seen)).length
+
+/-- What the termination argument needs of an include list `l` walked at location `loc`:
+resolving an entry never runs out of evaluator fuel, and whatever an entry resolves to, if it
+loads a class, is a name of the finite universe `U`. -/
+def GoodList (r : Inv) (U : List Str) (loc : Option (List Str)) (l : List Str) : Prop :=
+  ∀ cls ∈ l,
+    (∀ params, resolveClassName defaultFuel params cls ≠ .error .fuel) ∧
+    (∀ params c cn, resolveClassName defaultFuel params cls = .ok c →
+      readClass r loc c = .ok (some cn) → c ∈ U)
+
+/-- A node whose include list is good and has at most `B` entries. -/
+def GoodNode (r : Inv) (U : List Str) (B : Nat) (cn : NodeM) : Prop :=
+  cn.classes.items.length ≤ B ∧ GoodList r U cn.loc cn.classes.items
+
+/-- Every class that can be loaded from the inventory is a good node. -/
+def GoodInv (r : Inv) (U : List Str) (B : Nat) : Prop :=
+  ∀ loc c cn, readClass r loc c = .ok (some cn) → GoodNode r U B cn
+
+/-- Largest number of include entries of any class file of the inventory. -/
+def maxIncludes (r : Inv) : Nat :=
+  r.classes.foldl (fun m e => max m (match e.2.2 with | .ok src => src.classes.length | .bad _ => 0)) 0
+
 end Reclass
